@@ -175,6 +175,8 @@ func main() {
 		replay(os.Args[2:])
 	case "one":
 		one(os.Args[2:])
+	case "export":
+		export(os.Args[2:])
 	case "rules":
 		m := map[string]string{}
 		for id, c := range harness.Checks {
@@ -395,4 +397,22 @@ func one(args []string) {
 	v := ch.Run(c)
 	b, _ := json.Marshal(map[string]any{"status": v.Status, "clause": v.Clause, "sig": v.Sig, "detail": v.Detail})
 	fmt.Println(string(b))
+}
+
+// export writes one generated case (IR + reference result) as JSON for the
+// native fidelity runner.
+func export(args []string) {
+	fs := flag.NewFlagSet("export", flag.ExitOnError)
+	seed := fs.Uint64("seed", 1, "")
+	idx := fs.Int("index", 0, "")
+	out := fs.String("out", "", "")
+	fs.Parse(args)
+	t := simrt.NewTape(mix(*seed, *idx))
+	w, files, keys := harness.ExportCase(t)
+	b, _ := json.Marshal(map[string]any{"WF": w, "Files": files, "Keys": keys})
+	if *out == "" {
+		fmt.Println(string(b))
+	} else {
+		os.WriteFile(*out, b, 0666)
+	}
 }
